@@ -477,3 +477,11 @@ M("C06", "list items glued by position", "xeofs/preprocessing/concatenator.py", 
 M("C07", "list items glued by position", "xeofs/preprocessing/concatenator.py", "X_concat: DataArray = xr.concat(reindexed_data_list, dim=self.feature_name)", 'X_concat: DataArray = xr.concat(reindexed_data_list, dim=self.feature_name, join="override")', "LAYOUT.concat.align")
 M("C07", "items given the first item's sample index", "xeofs/preprocessing/concatenator.py", "            reindexed_data_list.append(reindexed)\n", "            reindexed = reindexed.assign_coords({self.sample_name: X[0].coords[self.sample_name]})\n            reindexed_data_list.append(reindexed)\n", "LAYOUT.concat.align.items")
 B("C07", "explicit outer join", "xeofs/preprocessing/concatenator.py", "X_concat: DataArray = xr.concat(reindexed_data_list, dim=self.feature_name)", 'X_concat: DataArray = xr.concat(reindexed_data_list, dim=self.feature_name, join="outer")')
+M("C15", "wrapper defaults override the user's options", DEC, '                "seed": self.random_state,\n            }\n            solver_kwargs.setdefault("compute", self.compute)\n            solver_kwargs.setdefault("n_power_iter", 4)\n', '                "seed": self.random_state,\n                "compute": self.compute,\n                "n_power_iter": 4,\n            }\n', "WIRE.precedence")
+B("C15", "wrapper defaults merged before the user's dict", DEC, '            solver_kwargs.setdefault("compute", self.compute)\n            solver_kwargs.setdefault("n_power_iter", 4)\n', '            solver_kwargs = {"compute": self.compute, "n_power_iter": 4} | solver_kwargs\n')
+M("C15", "exact solver under the inverted policy flag", SVD, "        if use_exact:\n", "        if not use_exact:\n", "EXH.solver.branch")
+M("C16", "Tinv labelled like T", WH, 'output_core_dims=[[self.feature_name, "mode"], ["mode", self.feature_name]]', 'output_core_dims=[[self.feature_name, "mode"], [self.feature_name, "mode"]]', "ADJOINT.inverse.labels")
+M("C16", "PCA pattern inverse without renaming V", "xeofs/preprocessing/pca.py", '            V = V.rename({"mode": dummy_dim})\n            return xr.dot(V, comps_pc_space, dims=dummy_dim)', '            return xr.dot(V, comps_pc_space, dims=dummy_dim)', "ADJOINT.dims.carried")
+M("C11", "varimax returns the previous iteration's product", "xeofs/linalg/_numpy/_rotation.py", "    # De-normalize\n    X = h[:, np.newaxis] * X\n\n    # Rotate\n    Xrot = X @ R\n", "    Xrot = h[:, np.newaxis] * basis\n", "KERNEL.consistent")
+B("C11", "varimax final product through a temporary", "xeofs/linalg/_numpy/_rotation.py", "    # Rotate\n    Xrot = X @ R\n", "    Rfinal = R\n    Xrot = X @ Rfinal\n")
+M("C10", "inner EOF of ExtendedEOF standardises again", EEOF, "            center=True,\n            standardize=False,\n            use_coslat=False,\n            compute=self._params[\"compute\"],\n            check_nans=False,\n            sample_name=self.sample_name,\n            feature_name=self.feature_name,\n            solver=", "            center=True,\n            standardize=self._params[\"standardize\"],\n            use_coslat=False,\n            compute=self._params[\"compute\"],\n            check_nans=False,\n            sample_name=self.sample_name,\n            feature_name=self.feature_name,\n            solver=", "SPECIAL.embed.inner.once")
